@@ -302,6 +302,9 @@ def lnL_of(problem, expm=None):
             lf.set_param_rule("length", edge=name, init=length)
         for k, v in ep.items():
             lf.set_param_rule(k, edge=name, init=numpy.array(v) if isinstance(v, list) else v)
+    if problem.get("scope"):       # a parameter scoped to the clade of two tips as seen from an outgroup tip
+        par, t1, t2, og, value = problem["scope"]
+        lf.set_param_rule(par, tip_names=[t1, t2], outgroup_name=og, clade=True, stem=False, init=value)
     return float(lf.lnL)
 
 
@@ -726,6 +729,29 @@ def gen_reroot(tier, seed):
                 yield [pb, [["reroot", where]]]
 
 
+def gen_clade_scope(tier, seed):
+    """a rate parameter scoped by tip_names=[t1, t2] + outgroup_name: the clade is a set of edges of the *unrooted* tree, so
+    the same rule on the same tree written with its root at another node must give the same lnL"""
+    thorough = tier == "thorough"
+    rnd = random.Random(f"{seed}/clade")
+    n = 0
+    for idx, pb in gen_bases(tier, seed, "reroot"):
+        cfg = MODELS[pb["model"]]
+        if not cfg["rev"] or not pb["named"] or cfg.get("discrete") or any(ep for _, _, ep, _ in edges_of(pb["tree"])):
+            continue
+        tips = tips_of(pb["tree"])
+        if len(tips) < 4:
+            continue
+        nodes = [w for w in placements(pb["tree"], []) if w[0] == "node"]
+        for _ in range(6 if thorough else 2):
+            t1, t2, og = rnd.sample(tips, 3)
+            q = dict(pb)
+            q["scope"] = ["kappa", t1, t2, og, 3.5]
+            for where in nodes:
+                n += 1
+                yield [q, [["reroot", where]]]
+
+
 def api_moves(tree):
     """root moves offered by the tree API itself"""
     tips = tips_of(tree)
@@ -949,6 +975,16 @@ BOUNDED = {
                  "with its edge; " + _MODELS_TXT + "; " + _TREES_TXT + "; thorough + 500 seeded 5-7 tip problems",
         "rule": "a case = (problem, [reroot placement]); the re-rooted tree is built from the undirected edge list "
                 "by the spec, not by cogent3; non-trivial always; distinct by hash of the case",
+    },
+    "clade_scope": {
+        "gen": gen_clade_scope, "contract": contract_steps,
+        "functions": ["LikelihoodFunction.set_param_rule(tip_names=, outgroup_name=, clade=)", "TreeNode.get_edge_names",
+                      "TreeNode.unrooted_deepcopy"],
+        "bound": "reversible models with a kappa term on the named base trees with >= 4 tips; kappa = 3.5 scoped to the "
+                 "clade of 2 random tips seen from a random outgroup tip (2 draws per base, thorough 6) x the root at every "
+                 "node of degree >= 3",
+        "rule": "a case = (problem with the scope rule, [reroot at a node]); lnL must not change; skipped when the model "
+                "has no kappa or the rule is refused on the base tree",
     },
     "api_reroot": {
         "gen": gen_api_reroot, "contract": contract_api_reroot,
